@@ -1,6 +1,7 @@
 (** The general theorems instantiated on ParsimonyAcr (character variant: every tip holds
     one state of the sorted alphabet) and ParsimonyAsr (sequence variant: IUPAC sets). *)
 From Coq Require Import String Ascii ZArith QArith Bool Arith Lia List.
+From GT Require Proofs.Reroot.
 From GT Require Import Base.UTree Spec.Obs Spec.Parsimony Model.Reroot Model.Parsimony
      Proofs.ParsimonyVec Proofs.ParsimonyHartigan Proofs.ParsimonyReroot Proofs.ParsimonyMain
      Proofs.ParsimonyCtx Proofs.ParsimonyDown Proofs.ParsimonyFinal Proofs.ParsimonyAcctran
@@ -206,6 +207,32 @@ Theorem asr_tips_unaltered : forall a q x v,
 Proof.
   intros a q x v Hq Hx Hv.
   eapply (tips_unaltered asr_tv 6 asr_ts true a t q x v Hwf Hdeg asr_tips); eauto.
+Qed.
+
+Theorem asr_downpass_unambiguous :
+  vall single (asr_vt Downpass) -> optimal asr_ts t (lab_of t (asr_vt Downpass)).
+Proof. apply (downpass_unambiguous asr_tv asr_ts 6 t Hwf Hdeg asr_tips). Qed.
+
+Theorem asr_deltran_unambiguous :
+  vall single (asr_vt Deltran) -> optimal asr_ts t (lab_of t (asr_vt Deltran)).
+Proof. apply (deltran_unambiguous asr_tv asr_ts 6 t Hwf Hdeg asr_tips). Qed.
+
+Theorem asr_acctran_unambiguous :
+  vall single (asr_vt Acctran) -> optimal asr_ts t (lab_of t (asr_vt Acctran)).
+Proof. apply (acctran_unambiguous asr_tv asr_ts 6 t Hwf Hdeg asr_tips). Qed.
+
+(** the site's step count does not depend on the rooting *)
+Theorem asr_site_steps_reroot : forall a i t',
+  reroot t i = Ok t' ->
+  snd (parsimony true asr_tv 6 a t') = snd (parsimony true asr_tv 6 a t).
+Proof.
+  intros a i t' Hr.
+  destruct (GT.Proofs.Reroot.reroot_preserves t i t' Hwf Hdeg Hr) as [_ [Hd' _]].
+  assert (Ht : is_tip t = false) by (unfold is_tip; apply Nat.eqb_neq; lia).
+  assert (Ht' : is_tip t' = false) by (unfold is_tip; apply Nat.eqb_neq; lia).
+  pose proof (up_steps_reroot asr_tv asr_ts 6 t i t' Hwf Hdeg asr_tips Hr) as E.
+  unfold parsimony, up_steps in *. rewrite Ht, Ht'.
+  destruct (uppass asr_tv 6 t), (uppass asr_tv 6 t'). simpl in *. exact E.
 Qed.
 
 End Asr.
